@@ -228,6 +228,39 @@ def st_related_multi(inv: Inventory):
                 st.just(['descr_create', pool_idx[h], 'classic'])).map(list))
         elif p in pool_idx:  # create parent + child in one transaction
             shapes.append(st.just([['descr_create', pool_idx[p], 'classic'], ['descr_create', pool_idx[h], 'classic']]))
+    # two children of one existing parent created (and later deleted) in one transaction
+    by_parent = {}
+    for h, c, p in inv.pool:
+        if p in by_handle:
+            by_parent.setdefault(p, []).append(h)
+    for p, hs in by_parent.items():
+        if len(hs) >= 2:  # noqa: PLR2004
+            shapes.append(st.just([['descr_create', pool_idx[hs[0]], 'classic'], ['descr_create', pool_idx[hs[1]], 'classic']]))
+            shapes.append(st.just([['descr_delete', hs[0], 'classic'], ['descr_delete', hs[1], 'classic']]))
+    siblings = {}
+    for h in inv.deletable:
+        if h in by_handle and by_handle[h][1] in by_handle:
+            siblings.setdefault(by_handle[h][1], []).append(h)
+    for p, hs in siblings.items():
+        if len(hs) >= 2:  # noqa: PLR2004
+            shapes.append(st.just([['descr_delete', hs[0], 'classic'], ['descr_delete', hs[1], 'classic']]))
+    # a member of a subtree is touched (updated, its state written, deleted) by the transaction that deletes the subtree
+    for h in inv.deletable[:10]:
+        if h not in by_handle:
+            continue
+        c, p = by_handle[h]
+        if p not in by_handle or p not in inv.deletable + inv.vmds:
+            continue
+        upd = st.tuples(st.just('descr_update'), st.just(h), T.instance_spec(T.all_classes()[c]), st.just('classic')).map(list)
+        shapes.append(st.tuples(upd, st.just(['descr_delete', p, 'classic'])).map(list))
+        state_cls = [sc for k in ('metric', 'alert', 'component') for hh, sc in inv.states[k] if hh == h]
+        if state_cls:
+            shapes.append(st.tuples(upd, st.tuples(st.just('tx_state'), st.just(h), _state_spec(state_cls[0])).map(list),
+                                    st.just(['descr_delete', p, 'classic'])).map(list))
+        gp = by_handle[p][1]
+        if gp in by_handle and gp in inv.vmds:
+            shapes.append(st.just([['descr_delete', h, 'classic'], ['descr_delete', gp, 'classic']]))
+            shapes.append(st.tuples(upd, st.just(['descr_delete', gp, 'classic'])).map(list))
     # update descriptor + its state
     for kind in ('metric', 'alert', 'component'):
         for h, sc in inv.states[kind][:6]:
@@ -323,6 +356,14 @@ def st_block(inv: Inventory, **kw):
                 lambda t, hc=hc: [['ctx_new', hc[0], f'vf_ctx_{i}', x[0], x[1], x[2]] for i, x in enumerate(t[0])] + [
                     ['descr_delete', hc[0], t[1]], *t[3], ['descr_recreate', hc[0], t[2]]] + (
                     [['ctx_new', hc[0], 'vf_ctx_0', t[0][0][0], 'No', t[0][0][2]]] if t[4] else []))))
+        # a context state is created, updated, removed through the entity interface and created again with its handle
+        if kw.get('context_ops', True) and kw.get('ctx_delete', True) and inv.context_descriptors:
+            blocks.append(st.sampled_from(inv.context_descriptors).flatmap(lambda hc: st.tuples(
+                _state_spec(hc[1]), st.lists(_state_spec(hc[1]), min_size=1, max_size=3), IFACE, IFACE,
+                st.sampled_from(['vf_ctx_1', 'vf_ctx_3']), st.lists(op, max_size=2)).map(
+                lambda t, hc=hc: [['ctx_new', hc[0], t[4], t[0], 'No', t[2]]] + [
+                    ['ctx_update', t[4], u, None, t[3]] for u in t[1]] + [['ctx_delete', t[4]], *t[5],
+                                                                          ['ctx_new', hc[0], t[4], t[0], 'No', t[3]]])))
         rel = st_related_multi(inv)
         if rel is not None and kw.get('multi', True):
             blocks.append(rel.map(lambda o: [o]))
@@ -724,8 +765,6 @@ class Interp:
         if descr is None or handle in mgr.descriptor_updates:
             raise Skip
         subtree = self.mdib.get_all_descriptors_in_subtree(descr)
-        if any(d.Handle in mgr.descriptor_updates for d in subtree):
-            raise Skip  # an op of this transaction already holds a member of the subtree (known finding shape, see C02)
         for d in subtree:
             states = [self.mdib.states.descriptor_handle.get_one(d.Handle, allow_none=True)]
             self.graveyard[d.Handle] = (copy.deepcopy(d), [copy.deepcopy(s) for s in states if s is not None])
